@@ -9,13 +9,15 @@
      - indexing normalises a negative index by adding the length; outside [0, len) the program stops
        with a panic after the lines printed so far;
      - `match` takes the first arm whose literal equals the value, else the default;
-     - a result-returning call yields ok(v) or err(e); `catch` binds the error and gives the fallback.
+     - a result-returning call yields ok(v) or err(e); `catch` binds the error and gives the fallback;
+     - an optional is none or some(v); `e ?? d` is v or d, `e == none` tests the discriminant.
    Programs are JSON ASTs (kind tag k).  Run(P) = [out |-> lines, halt |-> "exit0" | "panic"].
 
    Every value is a tagged record (TLC cannot compare records of different shapes with non-records):
      int  [t |-> "i", ty |-> [s, b], z |-> Z]        bool [t |-> "b", v]        str [t |-> "s", v]
      struct [t |-> "st", f |-> [name -> value]]       array [t |-> "ar", e |-> Seq(value)]
-     ref  [t |-> "r", fr |-> frame, p |-> path]       result [t |-> "rs", ok, v]     unit [t |-> "u"] *)
+     ref  [t |-> "r", fr |-> frame, p |-> path]       result [t |-> "rs", ok, v]     unit [t |-> "u"]
+     optional [t |-> "o", some, v] *)
 EXTENDS BigNum, TLC, Json
 
 Unit == [t |-> "u"]
@@ -125,6 +127,14 @@ EvalE(P, e, st) ==
                         back == [after EXCEPT !.fr = SubSeq(@, 1, Len(@) - 1),
                                               !.ctl = IF Stopped(after) THEN after.ctl ELSE "n", !.ret = Unit]
                     IN [v |-> after.ret, st |-> back]
+      [] e.k = "none" -> [v |-> [t |-> "o", some |-> FALSE, v |-> Unit], st |-> st]
+      [] e.k = "some" -> LET a == EvalE(P, e.e, st) IN          \* a value used where an optional is expected
+            IF Stopped(a.st) THEN a ELSE [v |-> [t |-> "o", some |-> TRUE, v |-> a.v], st |-> a.st]
+      [] e.k = "coal" -> LET a == EvalE(P, e.e, st)  d == EvalE(P, e.d, a.st) IN      \* e ?? d
+            IF Stopped(d.st) THEN [v |-> Unit, st |-> d.st]
+            ELSE [v |-> IF a.v.some THEN a.v.v ELSE d.v, st |-> d.st]
+      [] e.k = "isnone" -> LET a == EvalE(P, e.e, st) IN        \* e == none (neg: e != none)
+            IF Stopped(a.st) THEN a ELSE [v |-> BoolV(IF e.neg THEN a.v.some ELSE ~a.v.some), st |-> a.st]
       [] e.k = "catch" ->          \* result-returning call with a fallback (and an optional handler block)
             LET c == EvalE(P, e.call, st) IN
             IF Stopped(c.st) THEN c
